@@ -77,8 +77,8 @@ def check_instruction(meta, interp, name, root, V, cov):
         solver.add(res.pc)
         solver.add(pre)
         cov["queries"] += 1
-        if solver.check() != z3.sat:
-            continue
+        if solver.check() == z3.unsat:
+            continue  # excluded by the documented precondition (an `unknown` proceeds: every obligation is decided separately)
         assume = list(res.pc) + [pre]
         kind = res.value[0]
         posts = []
@@ -98,6 +98,10 @@ def check_instruction(meta, interp, name, root, V, cov):
             err = res.value[1]
             variant = getattr(err, "variant", str(err))
             if variant == "CycleLimitExceeded":
+                continue
+            if sp.get("advice"):
+                # adversarial host: a hint that fails the in-VM verification makes execution fail ("does not complete")
+                V.add(f"{tag}: error {variant} with a dishonest hint (allowed)", "discharged")
                 continue
             posts.append((f"error {variant} only in the documented failing case", fail))
         for label, b in posts:
